@@ -996,6 +996,18 @@ func (u *Unit) evalCall(env *SpecEnv, x *ast.CallExpr) SV {
 	case "allocated":
 		al := u.heapGet(env.hv, "alloc", ArrSort(SInt, SBool))
 		return SV{V: Select(al, argT(0)), Typ: boolT}
+	case "shared":
+		// shared(x): x is none of the objects this activation created and has not
+		// yet published (M9: what is reachable from lock-protected state is never
+		// an object private to another activation)
+		x := argT(0)
+		var cs []T
+		for _, p := range env.st.private {
+			if strings.HasPrefix(p.kind, "obj:") {
+				cs = append(cs, Neq(x, p.ref))
+			}
+		}
+		return SV{V: And(cs...), Typ: boolT}
 	case "panicked":
 		if env.st.panicking {
 			return SV{V: True, Typ: boolT}
@@ -1137,6 +1149,30 @@ func (u *Unit) evalCall(env *SpecEnv, x *ast.CallExpr) SV {
 		k := argT(0)
 		h := u.heapGet(env.hv, "G!"+gh.Name, ArrSort(gh.Key, gh.Val))
 		return SV{V: Select(h, k)}
+	}
+	if name == "nthres" && len(x.Args) == 2 {
+		// nthres(ev, k): the (first) result of the k-th (0-based) call of an event declared `record ... res:Sort`
+		id, _ := x.Args[0].(*ast.Ident)
+		if id == nil {
+			return env.fail("nthres(ev, k)")
+		}
+		key := "seq!" + id.Name + "!-1"
+		srt := SIface
+		for _, ev := range u.eng.spec.Events {
+			if ev.Name == id.Name && ev.Record {
+				if s2, ok := ev.RecordArgs[-1]; ok {
+					srt = s2
+				}
+			}
+		}
+		if env.calleeGhost != nil {
+			return SV{V: Select(u.calleeGhostVal(env, key, ArrSort(SInt, srt)), argT(1))}
+		}
+		arr, ok := env.cnt[key]
+		if !ok {
+			arr = u.seqArray(env.st, key, srt)
+		}
+		return SV{V: Select(arr, argT(1))}
 	}
 	if name == "nth" && len(x.Args) == 3 {
 		// nth(ev, k, i): argument i of the k-th (0-based) call of a recorded event
